@@ -36,14 +36,22 @@ try:
     def build(tag):
         return sh('go build -o zy-bin . && go build ./... && go build -tags verif ./...', cwd=wt)
     def demo():
-        if os.path.exists(f'{mutdir}/demo.php'):
+        if os.path.exists(f'{mutdir}/demo.php') and not os.path.exists(f'{mutdir}/run_demo.sh'):
             p = sh(f'timeout -s KILL 120 ./zy-bin {mutdir}/demo.php 2>&1', cwd=wt)
+            return p.stdout + (f'\n[exit {p.returncode}]' if p.returncode else '')
+        if os.path.exists(f'{mutdir}/run_demo.sh'):
+            p = sh(f'timeout -s KILL 300 sh {mutdir}/run_demo.sh {wt}/zy-bin 2>&1', cwd=wt)
+            return p.stdout + (f'\n[exit {p.returncode}]' if p.returncode else '')
+        for d in glob.glob(f'{mutdir}/*demo*/'):
+            shutil.copytree(d, f'{wt}/zz_demo', dirs_exist_ok=True)
+            p = sh('timeout -s KILL 600 go run -tags verif ./zz_demo', cwd=wt)
+            shutil.rmtree(f'{wt}/zz_demo', ignore_errors=True)
             return p.stdout + (f'\n[exit {p.returncode}]' if p.returncode else '')
         for g in ('demo.go', 'demo_main.go'):
             if os.path.exists(f'{mutdir}/{g}'):
                 os.makedirs(f'{wt}/zz_demo', exist_ok=True)
                 shutil.copy(f'{mutdir}/{g}', f'{wt}/zz_demo/main.go')
-                p = sh('timeout -s KILL 600 go run ./zz_demo', cwd=wt)
+                p = sh('timeout -s KILL 600 go run -tags verif ./zz_demo', cwd=wt)
                 shutil.rmtree(f'{wt}/zz_demo', ignore_errors=True)
                 return p.stdout + (f'\n[exit {p.returncode}]' if p.returncode else '')
         return None
